@@ -54,7 +54,7 @@ def run(module, cfg=None, wd=None, dump=False, workers=16, timeout=1800, simulat
         cfgpath = os.path.join(wd, cfg + '_ovr.cfg')
         open(cfgpath, 'w').write(txt)
     meta = os.path.join(wd, 'meta-' + cfg + str(time.time_ns()))
-    cmd = ['java', '-XX:+UseParallelGC', '-Xmx' + heap, '-cp', JAR, 'tlc2.TLC', '-workers', str(workers), '-metadir', meta,
+    cmd = ['java', '-XX:+UseParallelGC', '-Xmx' + heap, '-Djava.io.tmpdir=' + wd, '-cp', JAR, 'tlc2.TLC', '-workers', str(workers), '-metadir', meta,
            '-noGenerateSpecTE', '-config', cfgpath]
     if dump:
         r.dump = os.path.join(wd, cfg + '.dump')
@@ -101,7 +101,9 @@ def run(module, cfg=None, wd=None, dump=False, workers=16, timeout=1800, simulat
             r.distinct = r.generated
     bad = ('Error:' in r.log) and not r.violated
     if (bad or (r.violated and not expect_violation) or (not simulate and 'Model checking completed' not in r.log and not r.violated)):
-        raise TLCError('TLC failed on %s/%s:\n%s' % (module, cfg, r.log[-4000:]))
+        i = r.log.find('Error:')
+        first = r.log[max(0, i - 300):i + 1500] if i >= 0 else ''
+        raise TLCError('TLC failed on %s/%s:\n%s\n[...]\n%s' % (module, cfg, first, r.log[-1500:]))
     return r
 
 
